@@ -228,13 +228,15 @@ def _combo_job(job):
             n += 1
             ff = []
             touch_facade(fac_a, ff, "async:")
-            if v % 16 == 0 or full:
+            if v % (4 if full else 16) == 0:
                 touch_facade(fac_s, ff, "sync:")
             if ff:
                 note(ff, f"{base_name} byte {pos}={v}")
     # wiring bytes: every label index and the out-of-range boundary values, facades rebuilt
     for pos in (ctor_bytes if sweep in (True, 'ctor') else ()):
-        vals = range(256) if full else sorted(set(list(range(0, 34)) + [63, 64, 127, 128, 200, 254, 255]))
+        # (every shipped label list has fewer than 64 entries: 0..71 covers every label index and the first out-of-range
+        #  values; the rest of the byte range is sampled at its boundaries)
+        vals = sorted(set(list(range(0, 72 if full else 34)) + [63, 64, 127, 128, 200, 254, 255]))
         for v in vals:
             st.set_status_block(base[:pos] + bytes([v]) + base[pos + 1:])
             n += 1
